@@ -45,6 +45,10 @@ type Scenario struct {
 	// of simulated time (or the step cap is hit) a violation of that class: the
 	// property has a liveness clause. Otherwise such a run is a harness error.
 	StuckClass string
+	// PanicClass, when set, makes an unrecovered panic in a controlled goroutine of the
+	// system under test a violation of that class (the property says "never panics");
+	// otherwise such a panic is a harness error.
+	PanicClass string
 	Real, Stub []string
 	Run        func(c *Ctx)
 	OnStep     func(c *Ctx) // online invariant, evaluated at every scheduler step (scheduler goroutine: must not call goakt APIs that synchronise)
@@ -109,10 +113,10 @@ func (c *Ctx) Stamp() int64 {
 
 // --- helpers for scenario goroutines (see the package comment)
 
-func Go(f func())              { simrt.Go(-100, f) }
-func Sleep(d time.Duration)    { simrt.Sleep(-101, d) }
-func Yield()                   { simrt.Yield(-102) }
-func Now() time.Duration       { return simrt.Now() }
+func Go(f func())               { simrt.Go(-100, f) }
+func Sleep(d time.Duration)     { simrt.Sleep(-101, d) }
+func Yield()                    { simrt.Yield(-102) }
+func Now() time.Duration        { return simrt.Now() }
 func Recv[T any](ch <-chan T) T { return simrt.Recv(-103, ch) }
 func Send[T any](ch chan<- T, v T) {
 	simrt.Yield(-104)
